@@ -12,6 +12,8 @@
 //!        round trip) vs the model's gate, same oracle per dropped chunk.
 //! Leg C  QueryEngine::extract_column_predicates on generated SQL vs the
 //!        model's `convert` (sql.rs).
+//! Leg D  the row semantics against DataFusion itself (df.rs).
+mod df;
 mod eval;
 mod gen;
 mod sql;
@@ -495,18 +497,23 @@ fn main() {
     }
 
     let thorough = args.thorough();
-    let (n_a, n_b, n_c) = if thorough { (150_000, 6_000, 8_000) } else { (6_000, 400, 600) };
+    let (n_a, n_b, n_c, n_d) = if thorough { (600_000usize, 30_000usize, 30_000usize, 8_000usize) } else { (60_000, 2_500, 3_000, 1_500) };
     let mut rng = Rng::new(args.seed);
 
     // leg A
     for c in corpus() {
         run_a(&c, &mut model, &mut report, "corpus");
     }
-    for _ in 0..n_a {
+    let stride = (n_a / n_d).max(1);
+    for i in 0..n_a {
         let mut r = rng.fork();
         let c = gen::gen_case(&mut r, &mut report);
         run_a(&c, &mut model, &mut report, "random");
+        if i % stride == 0 {
+            df::check_d(&rt, &c, &mut report);
+        }
     }
+    df::engine_float_notes(&rt, &mut report);
     // leg B
     for (i, cc) in corpus_b().iter().enumerate() {
         run_b(&rt, cc, &mut model, &mut report, i % 2 == 0);
